@@ -141,6 +141,11 @@ func genC02(rng *rand.Rand, c *Case) {
 		case 8:
 			c.Ops = append(c.Ops, Op{K: "download", S: []string{files[rng.Intn(len(files))]}})
 		case 9:
+			if rng.Intn(2) == 0 {
+				// two changes of the user's own options back to back: every client is told each state in turn
+				c.Ops = append(c.Ops, Op{K: "opts2", N: []int{1 + rng.Intn(3), rng.Intn(2) * (1 + rng.Intn(3))}})
+				break
+			}
 			c.Ops = append(c.Ops, Op{K: "pipe", N: []int{2 + rng.Intn(4)}})
 		case 10:
 			c.Ops = append(c.Ops, Op{K: "fileinfo", S: []string{files[rng.Intn(len(files))]}})
@@ -278,6 +283,24 @@ func c02Session(w *World, variant bool) *c02Outcome {
 					ok = ok && got && r.Err == 0
 					extra += normFields(r) + "|"
 				}
+			case "opts2":
+				mk := func(o, icon int) rp.Tran {
+					id := c.nextID
+					c.nextID++
+					c.Sent[id] = rp.TSetClientUserInfo
+					return rp.Tran{Type: rp.TSetClientUserInfo, ID: id, Fields: []rp.Field{rp.FS(rp.FUserName, "tester"), rp.F16(rp.FUserIconID, uint16(icon)), rp.F16(rp.FOptions, uint16(o))}}
+				}
+				t1, t2 := mk(op.N[0], 100+i), mk(op.N[1], 200+i)
+				if variant {
+					_ = c.SendRaw(append(t1.Encode(), t2.Encode()...))
+				} else {
+					_ = c.SendRaw(t1.Encode())
+					c.Do(rp.TKeepAlive)
+					SettleShort()
+					_ = c.SendRaw(t2.Encode())
+				}
+				rep, ok = c.Do(rp.TKeepAlive)
+				SettleShort()
 			case "upload":
 				data := GenData(int64(op.N[1]), op.N[0])
 				withRsrc := op.N[2] == 1
